@@ -30,12 +30,21 @@ def gen_schema(rng):
     for e in range(nent):
         for _ in range(rng.choice([1, 1, 2, 2, 3])):
             decl.append(('s', e, rng.random() < 0.4, rng.random() < 0.45))
-    for i in range(rng.choice([1, 2, 2, 3, 3, 4])):
+    nrel = rng.choice([1, 2, 2, 3, 3, 4])
+    blocker = rng.randrange(nrel) if rng.random() < 0.6 else -1      # a relationship that can refuse a delete
+    for i in range(nrel):
         kind = rng.choice(['o2o', 'o2o', 'm2o', 'm2o', 'm2o', 'm2m', 'm2m', 'sym1', 'symm'])
         ea = rng.randrange(nent)
         eb = ea if rng.random() < 0.25 else rng.randrange(nent)
         def S(ent, coll=False, req=False, casc=None): return {'ent': ent, 'coll': coll, 'req': req, 'opt_casc': casc}
-        if kind == 'o2o':
+        if i == blocker:
+            if rng.random() < 0.6:
+                kind = 'm2o'
+                r = {'kind': kind, 'sym': False, 'a': S(ea, req=True), 'b': S(eb, coll=True, casc=False)}
+            else:
+                kind = 'o2o'
+                r = {'kind': kind, 'sym': False, 'a': S(ea, req=True), 'b': S(eb, casc=False)}
+        elif kind == 'o2o':
             areq = rng.random() < 0.35
             breq = False
             casc = rng.choice([None, None, None, 'a', 'b'])
@@ -48,6 +57,13 @@ def gen_schema(rng):
             r = {'kind': kind, 'sym': True, 'a': S(ea)}
         else:
             r = {'kind': kind, 'sym': True, 'a': S(ea, coll=True)}
+        # a Required reference must point to an entity declared earlier (else no object of the entity can ever be created)
+        for sn, other in (('a', 'b'), ('b', 'a')):
+            if not r['sym'] and r[sn]['req']:
+                if nent == 1: r[sn]['req'] = False
+                elif r[other]['ent'] >= r[sn]['ent']:
+                    lo, hi = sorted(rng.sample(range(nent), 2))
+                    r[sn]['ent'], r[other]['ent'] = hi, lo
         rels.append(r)
         decl.append(('r', i, 'a'))
         if not r['sym']: decl.append(('r', i, 'b'))
@@ -247,7 +263,7 @@ def drop_both_ends(ms, kv):
     return out
 
 
-def gen_op(rng, w, pbad):
+def gen_op(rng, w, pbad, force_create=False):
     ms = w.model_schema
     objs = w.objs
     alive = [o._status_ not in DEL for o in objs]
@@ -260,9 +276,9 @@ def gen_op(rng, w, pbad):
     def pick_obj(ent, b):
         cands = by_ent.get(ent, [])
         live = [i for i in cands if alive[i]]
-        if b and rng.random() < 0.6:
+        if b and rng.random() < 0.7:
             dead = [i for i in cands if not alive[i]]
-            if dead and rng.random() < 0.6: settag('dead-value'); return rng.choice(dead)
+            if dead and rng.random() < 0.8: settag('dead-value'); return rng.choice(dead)
             other = [i for i in range(len(objs)) if i not in cands]
             if other: settag('wrong-type'); return rng.choice(other)
         return rng.choice(live) if live else None
@@ -278,22 +294,25 @@ def gen_op(rng, w, pbad):
         return {'s': rng.choice(SVALS + [rng.randrange(4, 40)] * (3 if m['unique'] else 0))}
     def ref_val(a, b):
         m = ms['attrs'][a]
-        if rng.random() < (0.3 if not m['req'] else (0.3 if b else 0.0)):
+        if rng.random() < (0.2 if not m['req'] else (0.25 if b else 0.0)):
             if m['req']: settag('required-none')
             return {'ref': None}
         return {'ref': pick_obj(ms['attrs'][m['rev']]['ent'], b)}
     def coll_val(a, b, cur=None, prefer_cur=0.0):
         m = ms['attrs'][a]
         items = []
-        for _ in range(rng.choice([0, 1, 1, 1, 2, 2, 3])):
+        k = rng.choice([0, 1, 1, 2, 2, 2, 3, 3])
+        bad_at = rng.randrange(k) if (b and k) else -1           # one bad item among good ones: failure midway
+        for j in range(k):
             if cur and rng.random() < prefer_cur: v = rng.choice(cur)
-            else: v = pick_obj(ms['attrs'][m['rev']]['ent'], b and rng.random() < 0.5)
+            else: v = pick_obj(ms['attrs'][m['rev']]['ent'], j == bad_at)
             if v is not None and v not in items: items.append(v)
         return sorted(items)
     r = rng.random()
+    if force_create: r = 0.2
     if r < 0.11 and objs:
         return {'k': 'flush'}, None
-    if r < 0.34 or not objs:
+    if r < 0.30 or not objs:
         e = rng.randrange(ms['nent'])
         if not bad or rng.random() < 0.7:     # prefer an entity whose Required references can be satisfied
             ok = [x for x in range(ms['nent']) if all(any(alive[i] for i in by_ent.get(ms['attrs'][ms['attrs'][a]['rev']]['ent'], []))
@@ -307,12 +326,12 @@ def gen_op(rng, w, pbad):
                 if m['req'] or rng.random() < 0.6: vals.append([a, scalar_val(a, bad and rng.random() < 0.35)])
             elif m['kind'] == 'ref':
                 if m['req'] and bad and rng.random() < 0.15: settag('required-missing'); continue
-                if m['req'] or rng.random() < 0.5:
+                if m['req'] or rng.random() < 0.7:
                     v = ref_val(a, bad and rng.random() < 0.35)
                     if v['ref'] is None and m['req'] and tag[0] is None: settag('required-none')
                     vals.append([a, v])
             else:
-                if rng.random() < 0.45: vals.append([a, {'coll': coll_val(a, bad and rng.random() < 0.35)}])
+                if rng.random() < 0.6: vals.append([a, {'coll': coll_val(a, bad and rng.random() < 0.35)}])
         vals = drop_both_ends(ms, vals)
         pk = None
         if not ms['autopk'][e] or rng.random() < 0.3:
@@ -467,8 +486,9 @@ def oracle_phase(ctx, rng, nhist, nops):
             w.cache = w.db._get_cache()
             prev = w.snapshot()
             flush_failed = False
-            for _ in range(nops):
-                op, tag = gen_op(rng, w, pbad)
+            warm = rng.choice([3, 5, 7])
+            for step_no in range(nops):
+                op, tag = gen_op(rng, w, 0.0 if step_no < warm else pbad, force_create=step_no < warm and rng.random() < 0.8)
                 err = w.apply(op)
                 snap = w.snapshot()
                 if op['k'] == 'flush': op['ids'] = flush_ids(prev, snap)
@@ -594,7 +614,7 @@ def tie_phase(ctx, batch):
 
 def run(ctx):
     rng = ctx.rng
-    batch = oracle_phase(ctx, rng, ctx.scale(150, 3000), ctx.scale(16, 24))
+    batch = oracle_phase(ctx, rng, ctx.scale(150, 3000), ctx.scale(22, 30))
     tie_phase(ctx, batch)
 
 
